@@ -360,6 +360,30 @@ class RustView:
         return cur
 
 
+def scalar_impls(view):
+    """VfScalar impls for the enums and tuple newtypes bindgen generated (names from the inventory)."""
+    out = []
+    for name, it in sorted(view.enums.items()):
+        repr_ = [r for r in it.get("repr", []) if re.fullmatch(r"[iu](8|16|32|64|128|size)", r)]
+        if not repr_:
+            continue
+        r = repr_[0]
+        out.append("""impl VfScalar for %(n)s {
+    const SIGNED: bool = <%(r)s as VfScalar>::SIGNED; const KIND: &'static str = "enum"; const ELEM_SIZE: usize = std::mem::size_of::<%(r)s>();
+    fn show(&self, out: &mut String) { let v: %(r)s = unsafe { std::mem::transmute_copy(self) }; v.show(out); }
+    fn make(v: i128, step: bool, idx: &mut u64) -> Self { let x: %(r)s = <%(r)s as VfScalar>::make(v, false, idx); unsafe { std::mem::transmute_copy(&x) } }
+}""" % {"n": name, "r": r})
+    for name, fty in sorted(view.newtypes.items()):
+        if name.startswith("__Bindgen") or name.startswith("__Incomplete"):
+            continue
+        out.append("""impl VfScalar for %(n)s {
+    const SIGNED: bool = <%(t)s as VfScalar>::SIGNED; const KIND: &'static str = <%(t)s as VfScalar>::KIND; const ELEM_SIZE: usize = std::mem::size_of::<%(t)s>();
+    fn show(&self, out: &mut String) { self.0.show(out); }
+    fn make(v: i128, step: bool, idx: &mut u64) -> Self { %(n)s(<%(t)s as VfScalar>::make(v, step, idx)) }
+}""" % {"n": name, "t": fty})
+    return out
+
+
 def emit_rs(model, recs, view, bindings_path, c_naming=False, namespaces=False, layout_only=False, layout_only_recs=()):
     """Returns (source, info). info lists hidden leaves / records per record."""
     out = [RS_PRELUDE, 'include!("%s");' % bindings_path]
